@@ -25,7 +25,8 @@ BOUND = {
     'quick': 'texts: <=4 lines over {a,b,c,""} +- trailing newline (all ordered pairs) x context 0..3; extended alphabet '
              '{a,b,-x,+x,@x,\\x,x\\ry,x\\r,formfeed} <=2 lines x context 0..3; protocols: 0..2 files from {a.ml,a.mli,b.ml} '
              '(both orders) over 4 texts, all ordered pairs x context {0,3}',
-    'thorough': 'texts: <=5 lines over {a,b,c,""} +- trailing newline x context 0..5; extended alphabet <=3 lines x context 0..5; '
+    'thorough': 'texts: <=5 lines over {a,b,c,""} +- trailing newline x context 0..4; extended alphabet <=3 lines x context 0..3 '
+                '(a context >= the number of lines covers the whole text); '
                 'protocols: 0..3 files over 4 texts, all ordered pairs x context 0..3',
 }
 ASSUMPTIONS = [
@@ -64,7 +65,7 @@ def plan(tier):
     """-> list of (alphabet, max lines, contexts)"""
     if tier == 'quick':
         return [('base', 4, [0, 1, 2, 3]), ('ext', 2, [0, 1, 2, 3])]
-    return [('base', 5, [0, 1, 2, 3, 4, 5]), ('ext', 3, [0, 1, 2, 3, 4, 5])]
+    return [('base', 5, [0, 1, 2, 3, 4]), ('ext', 3, [0, 1, 2, 3])]
 
 
 # ---------------------------------------------------------------- text level
